@@ -288,7 +288,29 @@ def run(R):
     R.need(cp is not None, "anchor vanished: _PatchAsync.copy")
     std_fields = [q.src(a) for c in ast.walk(std["_patch.copy"]) if isinstance(c, ast.Call) and q.call_name(c) == "_patch" for a in c.args]
     ours_calls = [c for c in q.calls(cp.node) if q.call_name(c) == "_PatchAsync"]
-    R.check(any([q.src(a) for a in c.args] == std_fields for c in ours_calls), "C19.DROP-IN", cp.qualname, R.site(cp),
+    def list_variants(fn_node, name):
+        """the element sequences a list local can hold when it is built by a literal and top-level (possibly if-guarded) appends"""
+        seqs = None
+        for st in fn_node.body:
+            if isinstance(st, ast.Assign) and any(isinstance(t, ast.Name) and t.id == name for t in st.targets):
+                if not isinstance(st.value, ast.List):
+                    return []
+                seqs = [[q.src(e) for e in st.value.elts]]
+            elif seqs is not None and isinstance(st, ast.Expr) and isinstance(st.value, ast.Call) and q.call_name(st.value) == name + ".append" and len(st.value.args) == 1:
+                seqs = [x + [q.src(st.value.args[0])] for x in seqs]
+            elif seqs is not None and isinstance(st, ast.If) and not st.orelse and all(
+                    isinstance(b, ast.Expr) and isinstance(b.value, ast.Call) and q.call_name(b.value) == name + ".append" and len(b.value.args) == 1 for b in st.body):
+                seqs = seqs + [x + [q.src(b.value.args[0]) for b in st.body] for x in seqs]
+            elif seqs is not None and any(isinstance(y, ast.Name) and y.id == name and isinstance(y.ctx, ast.Store) for y in ast.walk(st)):
+                return []
+        return seqs or []
+    arg_lists = []
+    for c in ours_calls:
+        if len(c.args) == 1 and isinstance(c.args[0], ast.Starred) and isinstance(c.args[0].value, ast.Name) and not c.keywords:
+            arg_lists += list_variants(cp.node, c.args[0].value.id)
+        else:
+            arg_lists.append([q.src(a) for a in c.args])
+    R.check(any(al == std_fields for al in arg_lists), "C19.DROP-IN", cp.qualname, R.site(cp),
             "copy() passes the same fields as unittest.mock._patch.copy", "copy() does not pass the fields of the installed _patch.copy (%s)" % std_fields)
     # every copy is a new patcher: the standard library's class decorator and nested activations rely on copy() for independent
     # saved-original slots; a shared patcher has its saved original overwritten by the inner activation and then deleted
